@@ -48,7 +48,7 @@ PROPS = {
             "granularity: Write/Seek trait-level calls; a torn 12-byte entry write or a torn first header+directory write is outside the statement",
             "entries name data inside the image built so far (supplied by C01 for dumps; the generator emits such entries)",
         ],
-        'partial': 'theorem is per write_to_file call from any consistent state (an induction away from sequences); the transitive closure of references is C01',
+        'partial': 'proved for operation sequences of any length and from the start of the protocol; that a whole dump only issues such sequences (entries naming data inside the image) is C01 / the live stage; the transitive closure of references is C01',
     },
     'C12': {
         'abi_module': 'AbiC12',
